@@ -109,6 +109,15 @@ MidOf(T, e, j) ==
             IF j \in mgs THEN OkCs(st[j]) ELSE MgrNew(RawCopies(st[T.mg[j].src]), cfg)
        [] e.op = "append" -> MgrAppend(st[j], RawSlice(T, e.a, e.b), cfg)
        [] e.op = "collapse" -> MgrTasks(st[j], cfg)     \* another pass over the same list
+       \* calculate_index(start, end of list): every reading of the targets from `start` on is computed
+       \* anew -- the stage is the list with those readings taken out
+       [] e.op = "calculate_range" ->
+            LET pos == IF e.idx < 0 THEN Len(st[j]) + e.idx + 1 ELSE e.idx + 1     \* Python index -> position
+                nms == NamesOn(T, Targets(T, e), j)
+            IN OkCs([i \in 1..Len(st[j]) |->
+                      IF i >= pos THEN [st[j][i] EXCEPT !.ind = KVRemove(st[j][i].ind, nms),
+                                                        !.sub = KVRemove(st[j][i].sub, nms)]
+                      ELSE st[j][i]])
        [] e.op \in {"purge", "recalculate", "remove", "reconf"} ->
             OkCs(MgrPurge(st[j], NamesOn(T, Targets(T, e), j)))
        [] OTHER -> OkCs(st[j])
@@ -432,7 +441,7 @@ WorkFindings(T, e, mid, post) ==
 \* --------------------------------------------------------------------------
 \* all findings of one step
 \* --------------------------------------------------------------------------
-CalcOps == {"append", "calculate", "recalculate", "reconf"}
+CalcOps == {"append", "calculate", "recalculate", "reconf", "calculate_range"}
 ReadOps == {"reads"}
 
 StepFindings(T, e, post) ==
